@@ -555,6 +555,14 @@ impl FarmWorld {
                 }
             };
         }
+        // only accounts of the world act (the model rejects unknown callers the same way)
+        if matches!(w[0], "enter" | "enterOB" | "claim" | "claimOB" | "compound" | "exit" | "merge" | "claimBoosted") {
+            let c: u64 = w[1].parse().unwrap_or(0);
+            if c < 1 || c as usize > self.users.len() {
+                self.log.push(text.to_string());
+                return res;
+            }
+        }
         match w[0] {
             "enter" => {
                 let c: u64 = w[1].parse().unwrap();
